@@ -16,7 +16,7 @@
  *   comp F tag ref coder p hex | chunk F tag ref nt nd d.. c.. coder p fillhex nw (o.. hex).. | chunkhint F tag ref nd n..
  *   dup F tag ref otag oref | del F tag ref | lbw F tag ref n (pos hex).. (rewrite/extend an existing element)
  *   vgdel F slot which delobj | dfsd F nt rank d.. 3 strings (3 strings per dim).. hex | sdselect i | sddimname j namehex |
- *   sddimattr j namehex nt cnt hex | sdann F idx type hex
+ *   sddimattr j namehex nt cnt hex | sdann F idx type hex | grlut seed | grattr scope namehex nt cnt hex | dfpal F seed | defonly F tag ref
  *   vs F slot il blk nf (namehex type order).. nrec hex | vsapp F slot nrec hex | vsattr F slot findex namehex nt cnt hex
  *   vg F slot namehex classhex nm (kind a b).. | vgattr F slot namehex nt cnt hex
  *   sdstart F | sdcreate namehex nt rank d.. | sdfill hex | sdchunk coder p c.. | sdcomp coder p | sdblk n |
@@ -216,6 +216,32 @@ static void verify(int slot)
     if (gr != FAIL) {
         int32 nimg = 0, nattr = 0;
         GRfileinfo(gr, &nimg, &nattr);
+        {   /* raw descriptors of the palettes: count only, then exact-size arrays of 1, n-1, n, n+3 entries */
+            int n = GRgetpalinfo(gr, 0, NULL);
+            printf("%s F%d DI PAL 0 0 N - = %d\n", hist, slot, n);
+            long cand[4] = { 1, n - 1, n, n + 3 };
+            for (int i = 0; n >= 0 && i < 4; i++) {
+                long c = cand[i]; int dup = 0;
+                for (int j = 0; j < i; j++) if (cand[j] == c) dup = 1;
+                if (c <= 0 || dup) continue;
+                hdf_ddinfo_t *pi = malloc(c * sizeof *pi);
+                for (long k = 0; k < c; k++) { pi[k].tag = pi[k].ref = 0; pi[k].offset = pi[k].length = -7; }
+                int rr = GRgetpalinfo(gr, (unsigned)c, pi);
+                printf("%s F%d DI PAL 0 0 %ld - = %d", hist, slot, c, rr);
+                for (long k = 0; k < rr && k < c; k++) printf(" %d/%d/%d/%d", pi[k].tag, pi[k].ref, (int)pi[k].offset, (int)pi[k].length);
+                printf("\n");
+                free(pi);
+            }
+            for (int a_ = 0; a_ < nattr; a_++) {
+                char an_[256] = ""; int32 ant = 0, acnt = 0, o = -7, l = -7;
+                if (GRattrinfo(gr, a_, an_, &ant, &acnt) == FAIL) continue;
+                int rr = GRgetattdatainfo(gr, a_, &o, &l);
+                printf("%s F%d DI GRATT 0 %d 1 ", hist, slot, a_); phex0((unsigned char *)an_, strlen(an_));
+                printf(" = %d", rr);
+                if (rr == 1) printf(" %d:%d", (int)o, (int)l);
+                printf("\n");
+            }
+        }
         for (int i = 0; i < nimg; i++) {
             int32 ri = GRselect(gr, i);
             if (ri == FAIL) continue;
@@ -224,6 +250,15 @@ static void verify(int slot)
             GRgetiminfo(ri, name, &ncomp, &nt, &il, dims, &na);
             int   rr = GRidtoref(ri);
             printf("%s F%d GR %d ncomp=%d nt=%d w=%d h=%d\n", hist, slot, rr, (int)ncomp, (int)nt, (int)dims[0], (int)dims[1]);
+            for (int a_ = 0; a_ < na; a_++) {
+                char an_[256] = ""; int32 ant = 0, acnt = 0, o = -7, l = -7;
+                if (GRattrinfo(ri, a_, an_, &ant, &acnt) == FAIL) continue;
+                int r2 = GRgetattdatainfo(ri, a_, &o, &l);
+                printf("%s F%d DI GRATT %d %d 1 ", hist, slot, rr, a_); phex0((unsigned char *)an_, strlen(an_));
+                printf(" = %d", r2);
+                if (r2 == 1) printf(" %d:%d", (int)o, (int)l);
+                printf("\n");
+            }
             long nbytes = (long)ncomp * ntsize(nt) * dims[0] * dims[1];
             unsigned char *buf = calloc(nbytes > 0 ? nbytes : 1, 1);
             int32 st[2] = { 0, 0 }, sr[2] = { 1, 1 };
@@ -256,15 +291,19 @@ static void verify(int slot)
         for (int t_ = 0; t_ < 2; t_++) {
             ann_type at = t_ == 0 ? AN_FILE_LABEL : AN_FILE_DESC;
             int n_ = SDgetanndatainfo(sd, at, 0, NULL, NULL);
-            printf("%s F%d DI ANNF %d 0 N - = %d\n", hist, slot, t_, n_);
-            if (n_ > 0) {
-                int32 *o = malloc(n_ * sizeof(int32)), *l = malloc(n_ * sizeof(int32));
-                int rr = SDgetanndatainfo(sd, at, (unsigned)n_, o, l);
-                printf("%s F%d DI ANNF %d 0 %d - = %d", hist, slot, t_, n_, rr);
-                for (int k = 0; k < rr && k < n_; k++) printf(" %d:%d", (int)o[k], (int)l[k]);
-                printf("\n");
-                free(o); free(l);
-            }
+                    printf("%s F%d DI ANNF %d 0" " N - = %d\n", hist, slot, t_, n_);
+                    long cand_[4] = { 1, n_ - 1, n_, n_ + 3 };
+                    for (int i_ = 0; n_ > 0 && i_ < 4; i_++) {
+                        long c_ = cand_[i_]; int dup_ = 0;
+                        for (int j_ = 0; j_ < i_; j_++) if (cand_[j_] == c_) dup_ = 1;
+                        if (c_ <= 0 || dup_) continue;
+                        int32 *o = malloc(c_ * sizeof(int32)), *l = malloc(c_ * sizeof(int32));
+                        int rr = SDgetanndatainfo(sd, at, (unsigned)c_, o, l);
+                        printf("%s F%d DI ANNF %d 0" " %ld - = %d", hist, slot, t_, c_, rr);
+                        for (long k = 0; k < rr && k < c_; k++) printf(" %d:%d", (int)o[k], (int)l[k]);
+                        printf("\n");
+                        free(o); free(l);
+                    }
         }
         for (int i = 0; i < nds; i++) {
             int32 s = SDselect(sd, i);
@@ -332,12 +371,16 @@ static void verify(int slot)
                 for (int t_ = 0; t_ < 2; t_++) {
                     ann_type at = t_ == 0 ? AN_DATA_LABEL : AN_DATA_DESC;
                     int n_ = SDgetanndatainfo(s, at, 0, NULL, NULL);
-                    printf("%s F%d DI ANNS %d %d N - = %d\n", hist, slot, ndg, t_ + 2, n_);
-                    if (n_ > 0) {
-                        int32 *o = malloc(n_ * sizeof(int32)), *l = malloc(n_ * sizeof(int32));
-                        int rr = SDgetanndatainfo(s, at, (unsigned)n_, o, l);
-                        printf("%s F%d DI ANNS %d %d %d - = %d", hist, slot, ndg, t_ + 2, n_, rr);
-                        for (int k = 0; k < rr && k < n_; k++) printf(" %d:%d", (int)o[k], (int)l[k]);
+                    printf("%s F%d DI ANNS %d %d" " N - = %d\n", hist, slot, ndg, t_ + 2, n_);
+                    long cand_[4] = { 1, n_ - 1, n_, n_ + 3 };
+                    for (int i_ = 0; n_ > 0 && i_ < 4; i_++) {
+                        long c_ = cand_[i_]; int dup_ = 0;
+                        for (int j_ = 0; j_ < i_; j_++) if (cand_[j_] == c_) dup_ = 1;
+                        if (c_ <= 0 || dup_) continue;
+                        int32 *o = malloc(c_ * sizeof(int32)), *l = malloc(c_ * sizeof(int32));
+                        int rr = SDgetanndatainfo(s, at, (unsigned)c_, o, l);
+                        printf("%s F%d DI ANNS %d %d" " %ld - = %d", hist, slot, ndg, t_ + 2, c_, rr);
+                        for (long k = 0; k < rr && k < c_; k++) printf(" %d:%d", (int)o[k], (int)l[k]);
                         printf("\n");
                         free(o); free(l);
                     }
@@ -388,7 +431,19 @@ static void dump_v(int32 f, int slot, const char *vhp, const char *vgp, int with
             if (!strlen(fn_)) printf("-");
         }
         printf(" na=%d\n", (int)VSnattrs(vs));
-        if (with_di) di_queries(slot, "VS", r, 0, "-", di_vs, &vs, NULL);
+        if (with_di) {
+            di_queries(slot, "VS", r, 0, "-", di_vs, &vs, NULL);
+            for (int fi = -1; fi < nf; fi++) {          /* attributes of the vdata (-1) and of each field */
+                int na_ = VSfnattrs(vs, fi);
+                for (int a_ = 0; a_ < na_; a_++) {
+                    int32 o = -7, l = -7;
+                    int   rr = VSgetattdatainfo(vs, fi, a_, &o, &l);
+                    printf("%s F%d DI VSATT %d %d 1 %d = %d", hist, slot, (int)r, fi, a_, rr);
+                    if (rr == 1) printf(" %d:%d", (int)o, (int)l);
+                    printf("\n");
+                }
+            }
+        }
         VSdetach(vs);
     }
     r = -1;
@@ -408,6 +463,14 @@ static void dump_v(int32 f, int slot, const char *vhp, const char *vgp, int with
         int32 got = n > 0 ? Vgettagrefs(vg, tg, rf, n) : 0;
         for (int i = 0; i < got; i++) printf("%s%d:%d", i ? "," : "", (int)tg[i], (int)rf[i]);
         printf(" na=%d\n", (int)Vnattrs(vg));
+        if (with_di)
+            for (int a_ = 0; a_ < Vnattrs(vg); a_++) {
+                int32 o = -7, l = -7;
+                int   rr = Vgetattdatainfo(vg, a_, &o, &l);
+                printf("%s F%d DI VGATT %d 0 1 %d = %d", hist, slot, (int)r, a_, rr);
+                if (rr == 1) printf(" %d:%d", (int)o, (int)l);
+                printf("\n");
+            }
         free(tg); free(rf);
         Vdetach(vg);
     }
@@ -578,6 +641,28 @@ static void run_op(long ln)
             if (an != FAIL) ANend(an);
             if (f != FAIL && Hclose(f) == FAIL) { notclosed[F] = 1; ok = 0; }
         }
+    }
+    else if (!strcmp(op, "grlut")) {    /* palette of the current image: grlut seed */
+        int seed = argl(); unsigned char pal[768];
+        for (int i = 0; i < 768; i++) pal[i] = (unsigned char)(seed + i * 7);
+        int32 lut = ri_id != FAIL ? GRgetlutid(ri_id, 0) : FAIL;
+        ok = lut != FAIL && GRwritelut(lut, 3, DFNT_UINT8, MFGR_INTERLACE_PIXEL, 256, pal) != FAIL;
+    }
+    else if (!strcmp(op, "grattr")) {   /* grattr scope(0 file, 1 current image) namehex nt cnt hex */
+        int scope = argl(); char nm[256]; hexstr(args(), nm); int nt = argl(), cnt = argl(); unhex(args(), databuf);
+        int32 id = scope == 0 ? gr_id : ri_id;
+        ok = id != FAIL && GRsetattr(id, nm, nt, cnt, databuf) != FAIL;
+    }
+    else if (!strcmp(op, "dfpal")) {    /* old-style palette (DFTAG_IP8 + DFTAG_LUT) appended to a closed file: dfpal F seed */
+        int F = argl(), seed = argl(); unsigned char pal[768];
+        for (int i = 0; i < 768; i++) pal[i] = (unsigned char)(seed * 3 + i);
+        ok = F >= 0 && F < NF && fid[F] == FAIL && sd_id == FAIL && gr_id == FAIL && DFPaddpal(fname[F], pal) != FAIL;
+        if (ok) exists_[F] = 1;
+    }
+    else if (!strcmp(op, "defonly")) {  /* an element that is defined but never gets data: defonly F tag ref */
+        int F = argl(), tag = argl(), ref = argl();
+        int32 aid = F_OPEN(F) ? Hstartaccess(fid[F], tag, ref, DFACC_WRITE) : FAIL;
+        ok = aid != FAIL && Hendaccess(aid) != FAIL;
     }
     else if (!strcmp(op, "app")) {
         int F = argl(), tag = argl(), ref = argl(); int n = unhex(args(), databuf);
